@@ -4,13 +4,15 @@ import core, gen, gen_units as G, canon
 from core import hx, unhx
 
 LEAN_MODULE = 'QM.Props.C07'
-THEOREMS = ['Cv.C07_container_sections', 'Cv.C07_pod_sections', 'Cv.C07_volume_sections', 'Cv.C07_network_sections', 'Cv.C07_kube_sections', 'Cv.C07_build_sections',
+THEOREMS = ['Cv.C07_container_keys', 'Cv.C07_pod_keys', 'Cv.C07_volume_keys', 'Cv.C07_network_keys', 'Cv.C07_kube_keys', 'Cv.C07_build_keys', 'Cv.C07_image_keys',
+            'Cv.keys_fromContainer', 'Cv.unmanaged_of_keys', 'Cv.keys_startService',
+            'Cv.C07_container_sections', 'Cv.C07_pod_sections', 'Cv.C07_volume_sections', 'Cv.C07_network_sections', 'Cv.C07_kube_sections', 'Cv.C07_build_sections',
             'Cv.frame_fromContainer', 'Cv.frame_fromPod', 'Cv.frame_fromVolume', 'Cv.frame_fromNetwork', 'Cv.frame_fromKube', 'Cv.frame_fromBuild', 'Cv.sections_of_frame',
             'Cv.C07_start_passthrough', 'Cv.C07_unit_defaults_first', 'Cv.C07_oneshot_keeps_user_choice', 'Cv.C07_killmode_kept',
             'Cv.C07_image_passthrough', 'Cv.C07_image_xsection']
 ASSUMPTIONS = [
     'MM.SUnit models the ordered multimap; merge_from / rename_section / prepend / set / add are modelled operation by operation and tied by the unit-script correspondence',
-    'the statement about sections (every foreign section verbatim and in order; own section and [Quadlet] kept as X-…; neither remains) is proved for all seven converter models; what happens *inside* [Unit] and [Service] (user values kept per key, only NotifyAccess replaceable, managed settings) is proved for the shared helpers (default dependencies first, one-shot settings, KillMode) and otherwise checked on real conversions by the oracle',
+    'the statement about sections (every foreign section verbatim and in order; own section and [Quadlet] kept as X-…; neither remains) is proved for all seven converter models; inside [Unit] and [Service] every key that no converter manages (Cv.managed: 7 pairs in [Unit], 14 in [Service]) is proved to keep exactly the user\'s entries (C07_<type>_keys); for the managed keys (user values kept, only NotifyAccess replaceable, managed settings) is proved for the shared helpers (default dependencies first, one-shot settings, KillMode) and otherwise checked on real conversions by the oracle',
     '[Service] Type of a non-oneshot container is re-set by the generator to the same value (its spelling is normalised); the oracle compares unquoted values there',
 ]
 LEVEL_TEXT = ('Proof (sections: all seven converters) + oracle (inside [Unit]/[Service]): Lean theorems C07_<type>_sections — for every unit and every '
@@ -18,7 +20,9 @@ LEVEL_TEXT = ('Proof (sections: all seven converters) + oracle (inside [Unit]/[S
               '[Service] has exactly the user\'s entries in order, the own section is kept verbatim under X-<name> after whatever the user already had '
               'there (likewise [Quadlet]), and no section of the old names remains. Proved by a frame calculus: every handler (image / storage / volume / '
               'network / mount / pod references, KillMode, Type/Notify, working directory, Exec lines, one-shot settings), including the monadic folds, '
-              'writes only to [Unit] or [Service]. Also proved: default dependencies are prepended, one-shot settings and KillMode=mixed|control-group '
+              'writes only to [Unit] or [Service]. Inside [Unit] and [Service] (and every foreign section), for every (section, key) pair that no converter '
+              'manages (Cv.managed lists the 21 managed pairs) the service has exactly the user\'s entries of that key, values and order '
+              '(C07_<type>_keys, a key-level frame calculus over add / set / prepend / add_raw, all handlers, folds and converters). Also proved: default dependencies are prepended, one-shot settings and KillMode=mixed|control-group '
               'are kept when the user set them. The per-key claims inside [Unit]/[Service] are checked on the real converters with user values — '
               'including empty assignments — for every key the converters themselves read or write.')
 LEVEL_NOTE = 'Trusted: Lean kernel; correspondence of the multimap and converter models; the Python statement of the pass-through rule used by the oracle.'
